@@ -676,3 +676,55 @@ c.ens("descendant-dictionary-of-the-document-untouched-the-font-sees-a-private-c
     sorted(_desc) == ["BaseFont", "Subtype", "Type"], spec["DescendantFonts"][0] is _desc,
     len(trace) == 1, trace[0][1]["spec"] is not _desc, sorted(trace[0][1]["spec"]) == ["BaseFont", "Encoding", "Subtype", "ToUnicode", "Type"],
     trace[0][1]["spec"]["ToUnicode"] == "tounicode-stream"))
+
+
+# -- attributes that hold a process-wide object (a shared encoding table, a cached CMap, the built-in metrics) are only read ----------------------------
+SHARED_RETURNING = ("get_encoding", "get_cmap", "get_unicode_map", "get_metrics")
+
+
+def stores_through_shared_attributes():
+    """(1) collect the attribute names that somewhere in the package are assigned the result of a function that may hand out a process-wide object
+    (EncodingDB.get_encoding without Differences returns the class's own table; CMapDB.get_cmap / get_unicode_map return cached maps; FontMetricsDB.get_metrics
+    the built-in tables); (2) report every store or mutating call through such an attribute, anywhere in the package."""
+    attrs = set()
+    trees = []
+    for fn, path in _package_files():
+        tree = ast.parse(open(path).read())
+        trees.append((fn, tree))
+        for n in ast.walk(tree):
+            if isinstance(n, ast.Assign):
+                v = n.value
+                if isinstance(v, ast.Call) and isinstance(v.func, ast.Attribute) and v.func.attr in SHARED_RETURNING:
+                    for t in n.targets:
+                        for el in (t.elts if isinstance(t, ast.Tuple) else [t]):
+                            if isinstance(el, ast.Attribute):
+                                attrs.add(el.attr)
+    out = []
+    for fn, tree in trees:
+        for f in ast.walk(tree):
+            if not isinstance(f, ast.FunctionDef):
+                continue
+            for n in ast.walk(f):
+                tg = n.targets if isinstance(n, (ast.Assign, ast.Delete)) else [n.target] if isinstance(n, (ast.AugAssign, ast.AnnAssign)) else []
+                for t in tg:
+                    if isinstance(t, ast.Subscript) and isinstance(t.value, ast.Attribute) and t.value.attr in attrs:
+                        out.append((fn, f.name, n.lineno, ast.unparse(t)[:70]))
+                if isinstance(n, ast.Call) and isinstance(n.func, ast.Attribute) and n.func.attr in MUTATORS and n.func.attr != "write" \
+                        and isinstance(n.func.value, ast.Attribute) and n.func.value.attr in attrs:
+                    out.append((fn, f.name, n.lineno, ast.unparse(n)[:70]))
+    return sorted(attrs), out
+
+
+SHARED_ATTR_WRITERS_ALLOWED = {
+    ("cmapdb.py", "do_keyword", "self.cmap.use_cmap(CMapDB.get_cmap(literal_name(cmapname)))"): "not a store: use_cmap copies the cached map into the parser's own map (contract above)",
+}
+
+
+@exhaustive("inventory-of-stores-through-attributes-holding-shared-objects", props=["C12"],
+            note="AST scan: attributes ever assigned from EncodingDB.get_encoding / CMapDB.get_cmap / get_unicode_map / FontMetricsDB.get_metrics (cid2unicode, cmap, "
+                 "unicode_map, ...) are never stored into or mutated through, anywhere in the package")
+def _():
+    attrs, hits = stores_through_shared_attributes()
+    fails = [dict(file=f, function=fu, line=ln, store=tx, attribute_may_hold="a process-wide table or cached map") for f, fu, ln, tx in hits
+             if (f, fu, tx) not in SHARED_ATTR_WRITERS_ALLOWED]
+    return dict(cases=len(attrs) + sum(1 for _ in _package_files()), failures=fails[:5], notes=["attributes tracked: %s" % ", ".join(attrs)])
